@@ -1,0 +1,61 @@
+//! Verification hook (cargo feature `verif-hooks`, off by default): an append-only, thread-local
+//! log of every transcript operation, read by the runtime monitors under /verif. Observation only.
+extern crate std;
+
+use alloc::vec::Vec;
+use starknet_crypto::Felt;
+use std::cell::{Cell, RefCell};
+
+pub const BUDGET_PANIC_MSG: &str = "VERIF_EVENT_BUDGET_EXCEEDED";
+
+#[derive(Debug, Clone, PartialEq)]
+pub enum Event {
+    New { digest: Felt, counter: Felt },
+    Squeeze { digest: Felt, counter: Felt, out: Felt },
+    AbsorbFelt { before: Felt, value: Felt, after: Felt },
+    AbsorbVec { before: Felt, values: Vec<Felt>, after: Felt },
+}
+
+std::thread_local! {
+    static LOG: RefCell<Option<Vec<Event>>> = const { RefCell::new(None) };
+    static COUNT: Cell<u64> = const { Cell::new(0) };
+    static BUDGET: Cell<u64> = const { Cell::new(u64::MAX) };
+}
+
+/// Start (or restart) recording on this thread; `budget` bounds the number of events after which
+/// `record` panics with `BUDGET_PANIC_MSG` (a logical-step cut-off for resource monitors).
+pub fn start(budget: u64) {
+    LOG.with(|l| *l.borrow_mut() = Some(Vec::new()));
+    COUNT.with(|c| c.set(0));
+    BUDGET.with(|b| b.set(budget));
+}
+
+/// Stop recording and return what was recorded since `start`.
+pub fn take() -> Vec<Event> {
+    BUDGET.with(|b| b.set(u64::MAX));
+    LOG.with(|l| l.borrow_mut().take()).unwrap_or_default()
+}
+
+pub fn count() -> u64 {
+    COUNT.with(|c| c.get())
+}
+
+pub fn record(event: Event) {
+    let active = LOG.with(|l| {
+        if let Some(v) = l.borrow_mut().as_mut() {
+            v.push(event);
+            true
+        } else {
+            false
+        }
+    });
+    if active {
+        let n = COUNT.with(|c| {
+            c.set(c.get() + 1);
+            c.get()
+        });
+        if n > BUDGET.with(|b| b.get()) {
+            panic!("{}", BUDGET_PANIC_MSG);
+        }
+    }
+}
